@@ -1287,15 +1287,17 @@ func (s *scen) drain() {
 				return
 			}
 			for h := s.tail; h <= st.NetworkHead; h++ {
-				if !s.isOK(h) && !s.lost[h] {
-					sig := "C04/drain/height-never-sampled"
-					what := fmt.Sprintf("everything succeeded from some point on, the DASer is idle (stats %+v) but height %d was never sampled successfully", st, h)
-					s.rep.Violate(sig, what, s.replay())
-					// the same observation breaks C13's progress clause ("as long as blocks can be sampled the
-					// DASer eventually samples every known height") and its "done exactly when ..." clause
-					s.rep.Violate("C13/progress/known-height-never-sampled", what, s.replay())
-					return
+				if s.isOK(h) {
+					continue
 				}
+				what := fmt.Sprintf("everything succeeded from some point on, the DASer is idle (stats %+v) but height %d was never sampled successfully", st, h)
+				if !s.lost[h] { // not already reported by a stats / checkpoint monitor of C04
+					s.rep.Violate("C04/drain/height-never-sampled", what, s.replay())
+				}
+				// the same observation breaks C13's progress clause ("as long as blocks can be sampled the
+				// DASer eventually samples every known height") and its "done exactly when ..." clause
+				s.rep.Violate("C13/progress/known-height-never-sampled", what, s.replay())
+				return
 			}
 			if s.node {
 				for h := s.tail; h <= st.NetworkHead; h++ {
